@@ -356,7 +356,12 @@ where
             >> (State::BITS - Word::BITS))
             .as_();
         if upper_word == point_word {
-            self.bulk.write(Word::zero())?;
+            // Pin down all remaining words of the `point` that a decoder will read, so that
+            // arbitrary words that may follow the sealed data cannot push it beyond `upper`
+            // (a single zero word only suffices if `State` holds exactly two `Word`s).
+            for _ in 1..State::BITS / Word::BITS {
+                self.bulk.write(Word::zero())?;
+            }
         }
 
         Ok(())
@@ -375,7 +380,11 @@ where
         let upper_word = (self.state.lower.wrapping_add(&self.state.range.get())
             >> (State::BITS - Word::BITS))
             .as_();
-        let mut count = if upper_word == point_word { 2 } else { 1 };
+        let mut count = if upper_word == point_word {
+            State::BITS / Word::BITS
+        } else {
+            1
+        };
 
         if let EncoderSituation::Inverted(num_inverted, _) = self.situation {
             count += num_inverted.get();
